@@ -827,6 +827,75 @@ class _LogCapture:
         return re.sub(r'c19-\d+', 'c19-<pid>', t)[:600]
 
 
+def gen_logs_dir(tier):
+    """PlotLogs over a directory of two LIS files with different curve sets, formats chosen by 'at least k curves' (-X k):
+    what is plotted for a file must not depend on the other file."""
+    uids = [u for u in formats() if format_channels(u, True)]
+    picks = uids[:3] if tier == 'quick' else uids[:5]
+    for a in picks:
+        for b in picks:
+            if a == b:
+                continue
+            for k in ((1,) if tier == 'quick' else (1, 2)):
+                yield {'part': 'd', 'uids': [a, b], 'min': k, 'n': 12}
+
+
+def _plots_of(outdir, stem):
+    out = []
+    for root, _dirs, files in os.walk(outdir):
+        for f in files:
+            if f.endswith('.svg') and f.startswith(stem):
+                out.append(f[len(stem):])
+    return sorted(out)
+
+
+def run_dir(case):
+    from TotalDepth import PlotLogs
+    d = scratch()
+    for name in os.listdir(d):
+        p = os.path.join(d, name)
+        shutil.rmtree(p, ignore_errors=True) if os.path.isdir(p) else os.remove(p)
+    files = {}
+    for stem, uid in zip(('a', 'b'), case['uids']):
+        chans = [[name, 'UNIT', SHAPES[1 + i % 3], stored68(lo), stored68(hi), log] for i, (name, lo, hi, log) in enumerate(format_channels(uid, True))]
+        sub = {'part': 'b', 'input': 'LIS', 'entry': 'PlotLogs', 'cfg': {'kind': 'xml', 'uid': uid}, 'chans': chans, 'n': case['n'], 'down': False, 'scale': 0}
+        files[stem] = build_lis(sub)
+    opts = _Opts(0, [])
+    opts.LgFormat_min = case['min']
+    bad = []
+    alone = {}
+    try:
+        for stem, data in files.items():
+            din = os.path.join(d, 'alone_' + stem, 'in')
+            os.makedirs(din)
+            with open(os.path.join(din, stem + '.lis'), 'wb') as f:
+                f.write(data)
+            with _LogCapture():
+                PlotLogs.PlotLogPasses(din, os.path.join(d, 'alone_' + stem, 'out'), opts)
+            alone[stem] = _plots_of(os.path.join(d, 'alone_' + stem, 'out'), stem + '.lis')
+        din = os.path.join(d, 'both', 'in')
+        os.makedirs(din)
+        for stem, data in files.items():
+            with open(os.path.join(din, stem + '.lis'), 'wb') as f:
+                f.write(data)
+        with _LogCapture():
+            PlotLogs.PlotLogPasses(din, os.path.join(d, 'both', 'out'), opts)
+        both = {stem: _plots_of(os.path.join(d, 'both', 'out'), stem + '.lis') for stem in files}
+    except Exception as err:  # noqa
+        sig = {'kind': 'plot_raises', 'input': 'LIS', 'entry': 'PlotLogs directory'}
+        sig.update(exc_sig(err))
+        return [(sig, 'PlotLogs on a directory of two LIS files (formats %r, -X %d): %s: %s' % (case['uids'], case['min'], type(err).__name__, err))], ('raise',), True
+    for stem in sorted(files):
+        if both[stem] != alone[stem]:
+            bad.append(({'kind': 'plots_depend_on_other_files'},
+                        'PlotLogs -X %d: %s.lis (curves of %s) gives plots %r on its own but %r beside %s.lis (curves of %s)'
+                        % (case['min'], stem, case['uids'][stem == 'b'], alone[stem], both[stem], 'b' if stem == 'a' else 'a', case['uids'][stem != 'b'])))
+        if not alone[stem]:
+            bad.append(({'kind': 'no_plot_file', 'input': 'LIS', 'entry': 'PlotLogs directory'},
+                        'PlotLogs -X %d wrote no plot for a file holding every curve of format %s' % (case['min'], case['uids'][stem == 'b'])))
+    return bad, h64(repr((alone, both))), True
+
+
 def run_plot(case):
     """Produce the plot(s) of one case with the real implementation and apply the oracle.
     Returns (violations [(sig, msg)], outcome, nontrivial)."""
@@ -1112,8 +1181,9 @@ GROUPS = {
     'logs_tables': gen_logs_tables,
     'logs_xml_lis': lambda tier: gen_xml(tier, 'LIS', 'PlotLogs'),
     'logs_xml_las': lambda tier: gen_xml(tier, 'LAS', 'PlotLogs'),
+    'logs_dir': gen_logs_dir,
 }
-CHUNK = {'pres': (60, 200), 'film': (40, 80)}     # cases per shard (quick, thorough); other groups: (20, 25), a plot from a
+CHUNK = {'pres': (60, 200), 'film': (40, 80), 'logs_dir': (1, 2)}     # cases per shard (quick, thorough); other groups: (20, 25), a plot from a
 # LgFormat file costs about ten times a plot from a PRES table
 
 
@@ -1138,7 +1208,7 @@ def run_shard(shard, tier):
         return res
     try:
         for i, case in enumerate(itertools.islice(GROUPS[shard['group']](tier), shard['lo'], shard['hi'])):
-            bad, outcome, nontrivial = run_plot(case)
+            bad, outcome, nontrivial = run_dir(case) if case['part'] == 'd' else run_plot(case)
             res.case(case_key(case), nontrivial=nontrivial, outcome=outcome, sample=case if i == 0 else None)
             res.count('plots_' + shard['group'])
             for sig, msg in bad:
@@ -1153,7 +1223,7 @@ def replay(case):
         bad, _o, _n = check_trans(case)
     else:
         try:
-            bad, _o, _n = run_plot(case)
+            bad, _o, _n = run_dir(case) if case['part'] == 'd' else run_plot(case)
         finally:
             drop_scratch()
     return [{'sig': sig, 'case': case, 'msg': msg} for sig, msg in bad]
